@@ -62,6 +62,10 @@ def quantize_like(dest, values):
     # in its range and use more than half of it. A null range also keeps it: a scale must not be null.
     fitted = absmax / dtype_info(dest.qtype.dtype).max
     keep = ((fitted <= dest._scale) & (2 * fitted > dest._scale)) | (fitted == 0)
+    if dest._data.untyped_storage().nbytes() > dest._data.nbytes:
+        # The destination is a view of a part of another tensor, and shares its scale:
+        # the scale is never reduced to the range of that part
+        keep = keep | (fitted <= dest._scale)
     scale = torch.where(keep, dest._scale, fitted)
     return SymmetricQuantizer.apply(values, dest.qtype, dest.axis, scale)
 
